@@ -10,6 +10,8 @@ from typing import Tuple
 import inspect
 
 USED_SOURCES = {}
+# Full path of the file behind each entry of USED_SOURCES
+_SOURCE_PATHS = {}
 REFS = []
 
 # Global variable that holds the map of source references
@@ -68,12 +70,15 @@ class SourceRef:
 
         src = None
         try:
-            if filename not in USED_SOURCES:
+            path = os.path.abspath(backend_frame.f_code.co_filename)
+            # Sources are listed by base name; re-read when another file of that name is used.
+            if filename not in USED_SOURCES or _SOURCE_PATHS.get(filename) != path:
                 with open(
                     f"{backend_frame.f_code.co_filename}", encoding="utf-8"
                 ) as file:
                     src = file.read()
                 USED_SOURCES[filename] = src
+                _SOURCE_PATHS[filename] = path
             else:
                 src = USED_SOURCES[filename]
         except OSError:
